@@ -308,6 +308,10 @@ def write_replay(prop, seed, idx, payload):
 
 
 def write_evidence(prop, tier, seed, coverage, assumptions, wall_s, violations, level="proof"):
+    global EVIDENCE
+    if REPO != Path("/repo"):
+        # runs against another tree (seeded mutations, candidate fixes) must not overwrite the evidence of /repo
+        EVIDENCE = Path(tempfile.gettempdir()) / "verif-evidence-other-tree"
     EVIDENCE.mkdir(exist_ok=True)
     ev = dict(
         property_id=prop,
